@@ -6,8 +6,9 @@ Block structure, offsets, padding, end-of-archive and the read loops are modelle
 `AioTarInfo._proc_gnulong`, `FileStreamReaderWrapper.read`, `copyfileobj` / `write`). The *content* of a 512-byte header
 block is CPython's (`TarInfo.tobuf` / `frombuf`) and enters through a `Codec`: functions with `dec (enc n s) = reg n s` and
 `dec (encLong n) = long n` on the headers it declares valid. Members are regular files (directories are members of size
-0) with names of any length (GNU long-name records for names over 100 bytes); pax extension members, links and sparse
-files are validated by the correspondence check only. -/
+0) with names of any length: names over 100 bytes go through a GNU long-name record or a per-member pax extended header
+(`_proc_pax`, records applied to that member only); pax *global* headers, `size` overrides, links and sparse files are validated
+by the correspondence check only. -/
 namespace SFV.Tar
 open SFV.Bytes
 
@@ -23,21 +24,48 @@ deriving DecidableEq, Repr
 inductive Hd
   | reg (name : List Byte) (size : Nat)
   | long (n : Nat)
+  | pax (n : Nat)          -- pax extended header (`././@PaxHeader`, type `x`) with `n` bytes of records
 deriving DecidableEq, Repr
+
+/-- a pax record `key=value` -/
+abbrev Rec := List Byte × List Byte
+
+/-- the two decoders the reader uses: header blocks (CPython `frombuf`) and the records of a pax extended header
+    (the `"%d %s=%s\n"` parse loop of `_proc_pax`) -/
+structure Dec where
+  hdr : List Byte → Option Hd
+  recs : List Byte → List Rec
+
+/-- `path` -/
+def pathKey : List Byte := [112, 97, 116, 104]
+
+/-- dictionary semantics: the last record for a key wins -/
+def lookupLast (k : List Byte) (rs : List Rec) : Option (List Byte) := (rs.reverse.find? (fun r => r.1 == k)).map (·.2)
+
+/-- `_apply_pax_info`: a `path` record replaces the member's name -/
+def applyPath (rs : List Rec) (name : List Byte) : List Byte := (lookupLast pathKey rs).getD name
 
 /-- header encoding/decoding (CPython's `tobuf`/`frombuf`): what the theorems assume about it -/
 structure Codec where
+  pax : Bool                                 -- the writer's format: `PAX_FORMAT` (true) or `GNU_FORMAT` (false)
   enc : List Byte → Nat → List Byte          -- ordinary header: name (at most 100 bytes), size
   encLong : Nat → List Byte                  -- GNU long-name header announcing `n` bytes
-  dec : List Byte → Option Hd
+  encPax : Nat → List Byte                   -- pax extended header announcing `n` bytes of records
+  encRecs : List Rec → List Byte             -- the records of a pax header
+  dec : Dec
   valid : List Byte → Nat → Prop
   validLong : Nat → Prop
+  validPax : Nat → Prop
   enc_len : ∀ n s, (enc n s).length = 512
   encLong_len : ∀ n, (encLong n).length = 512
-  dec_enc : ∀ n s, valid n s → dec (enc n s) = some (.reg n s)
-  dec_encLong : ∀ n, validLong n → dec (encLong n) = some (.long n)
+  encPax_len : ∀ n, (encPax n).length = 512
+  dec_enc : ∀ n s, valid n s → dec.hdr (enc n s) = some (.reg n s)
+  dec_encLong : ∀ n, validLong n → dec.hdr (encLong n) = some (.long n)
+  dec_encPax : ∀ n, validPax n → dec.hdr (encPax n) = some (.pax n)
+  dec_encRecs : ∀ name, dec.recs (encRecs [(pathKey, name)]) = [(pathKey, name)]
   enc_nonzero : ∀ n s, valid n s → (enc n s).all (· == 0) = false
   encLong_nonzero : ∀ n, validLong n → (encLong n).all (· == 0) = false
+  encPax_nonzero : ∀ n, validPax n → (encPax n).all (· == 0) = false
 
 def zeros (n : Nat) : List Byte := List.replicate n 0
 
@@ -48,10 +76,16 @@ def blockLen (n : Nat) : Nat := n + padLen n
 
 /-! ## writer: `addfile` for every member, then `_close` -/
 
-/-- `TarInfo.tobuf(GNU_FORMAT)`: names longer than 100 bytes are preceded by a long-name record (header, the name and a
-    NUL padded to a block); the ordinary header then carries the first 100 bytes of the name -/
+/-- the records block of a pax header carrying the member's full name -/
+def paxPayload (c : Codec) (name : List Byte) : List Byte := c.encRecs [(pathKey, name)]
+
+/-- `TarInfo.tobuf`: names longer than 100 bytes are preceded by an extension record — `GNU_FORMAT`: a long-name record (header,
+    the name and a NUL, padded to a block); `PAX_FORMAT`: an extended header whose records carry `path=<name>` — and the ordinary
+    header then carries the first 100 bytes of the name -/
 def longRecord (c : Codec) (name : List Byte) : List Byte :=
   if name.length ≤ 100 then []
+  else if c.pax then
+    c.encPax (paxPayload c name).length ++ (paxPayload c name ++ zeros (padLen (paxPayload c name).length))
   else c.encLong (name.length + 1) ++ (name ++ [0] ++ zeros (padLen (name.length + 1)))
 
 def encMember (c : Codec) (m : Member) : List Byte :=
@@ -72,21 +106,22 @@ inductive Hdr
   | empty | truncated | eof | invalid
   | hdr (name : List Byte) (size : Nat)
   | longname (n : Nat)
+  | paxhdr (n : Nat)
 
 /-- `tarfile.nts`: the bytes up to the first NUL -/
 def nts (bs : List Byte) : List Byte := bs.takeWhile (· != 0)
 
 /-- `TarInfo.frombuf`: the checks in the order of the code -/
-abbrev Dec := List Byte → Option Hd
 
 def classify (dec : Dec) (buf : List Byte) : Hdr :=
   if buf.length = 0 then .empty
   else if buf.length ≠ 512 then .truncated
   else if buf.all (· == 0) then .eof
-  else match dec buf with
+  else match dec.hdr buf with
     | none => .invalid
     | some (.reg n s) => .hdr n s
     | some (.long n) => .longname n
+    | some (.pax n) => .paxhdr n
 
 inductive Outcome
   | ok (ms : List Member)
@@ -116,6 +151,17 @@ def readMembers (dec : Dec) : Nat → Reader → Nat → List Member → Outcome
                 | .hdr _ size =>
                     let d := hb2.2.read size
                     readMembers dec fuel d.2 (hb2.2.pos + blockLen size) (acc ++ [{ name := nts nb.1, data := d.1 }])
+                | _ => .error)
+          | .paxhdr n =>
+              -- `_proc_pax` (per-member extended header, no global headers in the archive): read the records, then the real
+              -- header (`SubsequentHeaderError` → `ReadError` otherwise); the records apply to THIS member only
+              let pb := hb.2.read (blockLen n)
+              let hb2 := pb.2.read 512
+              (match classify dec hb2.1 with
+                | .hdr name size =>
+                    let d := hb2.2.read size
+                    readMembers dec fuel d.2 (hb2.2.pos + blockLen size)
+                      (acc ++ [{ name := applyPath (dec.recs (pb.1.take n)) name, data := d.1 }])
                 | _ => .error)
           | .eof => .ok acc
           | _ => if offset = 0 then .error else .ok acc
